@@ -72,8 +72,8 @@ def eval_pair(fam, a, b, forms=('fn', 'method')):
 class LL(Family):
     """line-like x line-like over all ordered point pairs of a box."""
 
-    def __init__(self, pose, pts, chunk=24):
-        self.name = 'LL/' + pose.name
+    def __init__(self, pose, pts, chunk=24, name='LL'):
+        self.name = name + '/' + pose.name
         self.pose = pose
         self.pairs = [(p, q) for p in pts for q in pts if p != q]
         self._shards = [(ka, kb, i, min(i + chunk, len(self.pairs)))
@@ -170,6 +170,13 @@ def families(tier):
     for pose in (A.PZ, A.P1):
         gz = Mixed('graze', pose, graze, planes[::2 if tier == 'quick' else 1], chunk=2)
         fams.append(gz)
+    # all line-likes of one lattice plane, posed into an upright plane whose horizontal slope (15/11) is not exactly
+    # representable: every pair has xy-parallel directions, the case in which an elimination without proper pivoting
+    # divides by rounding noise
+    flat_pts = [p for p in (A.B0 if tier == 'quick' else A.B1) if p[2] == 0]
+    fams.append(LL(A.P5, flat_pts, chunk=4, name='LL-upright'))
+    if tier != 'quick':
+        fams.append(LL(A.P4, flat_pts, chunk=4, name='LL-upright'))
     fams.append(MovedMixed('moved', A.P1, planes[::st] + linelikes[::st * 5], linelikes[::st] + planes[::st] + points[::3], both_orders=False, chunk=2))
     return fams
 
